@@ -261,3 +261,32 @@ Example edate_ex :
   /\ date_time.f_edate (VInt 45306) (VInt 14) = Ok (VInt 45731)
   /\ date_time.f_edate (VInt 45731) (VInt (-30)) = date_time.f_edate (VInt 45306) (VInt (-16)).
 Proof. repeat split; vm_compute; reflexivity. Qed.
+
+(* ------------------------------- month carry on the generated DATE itself *)
+(* DATE(y, m + 12 k, d) = DATE(y + k, m, d) for ALL integers m, d, k (both years in
+   1900..9999: below 1900 DATE reads the year as 1900 + year), whatever the result
+   is — a serial day, #NUM! or an exception *)
+Lemma date_month_carry y m d k : 1900 <= y <= 9999 -> 1900 <= y + k <= 9999 ->
+  date_time.f_date (VInt y) (VInt (m + 12 * k)) (VInt d)
+  = date_time.f_date (VInt (y + k)) (VInt m) (VInt d).
+Proof.
+  intros Hy Hk.
+  assert (N : date_time.f_normalize_year py_recursion_fuel (VInt y) (VInt (m + 12 * k)) (VInt d)
+              = date_time.f_normalize_year py_recursion_fuel (VInt (y + k)) (VInt m) (VInt d)).
+  { unfold py_recursion_fuel. rewrite normalize_month. rewrite (normalize_month _ (y + k) m).
+    replace (nyear y (m + 12 * k)) with (nyear (y + k) m)
+      by (unfold nyear; replace (m + 12 * k - 1) with (m - 1 + k * 12) by lia;
+          rewrite Z.div_add by lia; lia).
+    replace (nmonth (m + 12 * k)) with (nmonth m)
+      by (unfold nmonth; replace (m + 12 * k - 1) with (m - 1 + k * 12) by lia;
+          rewrite Z.mod_add by lia; reflexivity).
+    reflexivity. }
+  unfold date_time.f_date. py_run.
+  replace (0 <=? y) with true by (symmetry; apply Z.leb_le; lia).
+  replace (0 <=? y + k) with true by (symmetry; apply Z.leb_le; lia). py_run.
+  replace (y <=? 9999) with true by (symmetry; apply Z.leb_le; lia).
+  replace (y + k <=? 9999) with true by (symmetry; apply Z.leb_le; lia). py_run.
+  replace (y <? 1900) with false by (symmetry; apply Z.ltb_ge; lia).
+  replace (y + k <? 1900) with false by (symmetry; apply Z.ltb_ge; lia).
+  rewrite N. reflexivity.
+Qed.
